@@ -636,7 +636,21 @@ func (fr *Frame) enterLoop(li *loopInfo, b *ssa.BasicBlock, ins []edge, cur *Sta
 	{
 		for _, g := range fr.ghostAssignedIn(blocks) {
 			if _, ok := st.ghost[g]; ok {
-				st.ghost[g] = vc.freshVal("g_"+g, vc.ghostTypes[g]).Ts
+				st.ghost[g] = vc.freshLeavesGhostNamed("g_"+g, vc.ghostTypes[g])
+			}
+		}
+		// the "keys produced so far" sets of map ranges iterated inside the body
+		for _, blk := range blocks {
+			for _, ins := range blk.Instrs {
+				if nx, ok := ins.(*ssa.Next); ok && !nx.IsString {
+					if rg, ok := nx.Iter.(*ssa.Range); ok {
+						if g := vc.rangeGhost[rg]; g != "" {
+							if _, has := st.ghost[g]; has {
+								st.ghost[g] = vc.freshLeavesGhostNamed("g_"+g, fsetType)
+							}
+						}
+					}
+				}
 			}
 		}
 	}
